@@ -45,6 +45,14 @@ ASSUMPTIONS = [
     "refused (then nothing of them is stored and nothing else is lost) or stored (then the unmappable field is not compared)",
     "the reader-lock fault shortens the writer's lock wait with PRAGMA busy_timeout through the writer's `con` attribute when it exists "
     "(otherwise sqlite3's default 5 s applies); a flush()/close() that raises under the lock is accepted, a silent return must have committed",
+    "reader-usage histories: one SqliteReader object serves two iterators in lockstep, a nested full iteration, a restart after a partial "
+    "iteration and two read_table() generators side by side (reader batch size below the table size); every complete iteration must return "
+    "what a fresh reader returns",
+    "a field name may be declared twice in one descriptor (extend() over an existing name); value, column type and read-back follow the LAST "
+    "declaration; such a name is never re-typed across versions of a table that already has the column",
+    "every database is read back with the default reader batch size and again with reader batch sizes {1, 2, writer batch size, n-1, n, n+1} "
+    "(n = rows of the largest table): the records returned must be identical; one table of 1001 rows per quick run (thorough: 999..3001) "
+    "exceeds the reader's default batch of 1000",
     "a field never changes its type between the versions of a same-named type (except text-like re-typing inside the identifier-coincident "
     "pairs, e.g. stringlist a -> string a, both TEXT columns); versions may gain fields, drop fields and bring new ones",
     "integer-like field types outside the five classes (boolean, uint16, uint32, filesize, unix_file_mode) may come back either as "
@@ -115,6 +123,8 @@ def generate(ctx):
             kind = "evolve"  # one type, three versions
         elif i % 10 == 1:
             kind = "sqlite-names"  # type names that start with "sqlite" without being the reserved "sqlite_" prefix
+        elif i % 10 == 0 and i:
+            kind = "redeclare"  # a field name declared twice in one descriptor (extend() over an existing name): the LAST declaration counts
         elif i % 10 == 8:
             kind = "coincident"  # one type name whose later version has the SAME identifier hash (different field list)
         elif i % 10 == 4:
@@ -130,6 +140,10 @@ def generate(ctx):
             yield {"k": kind, "style": "alternate", "s": subseed("c18", ctx.seed, ctx.shard, i)}
             continue
         yield {"k": kind, "s": subseed("c18", ctx.seed, ctx.shard, i)}
+    # tables with more rows than the reader's default batch of 1000 (quick: one 1001-row table in the whole run; thorough: several sizes)
+    big = {0: 1001} if ctx.quick else {0: 1001, 1: 2000, 2: 2500, 3: 1000, 4: 999, 5: 3001, 6: 2001}
+    if ctx.shard in big:
+        yield {"k": "bigtable", "rows": big[ctx.shard], "batches": [1000, 300], "s": subseed("c18", ctx.seed, "big", ctx.shard)}
     # relative database paths while the application changes its working directory: one child process per shard (thorough: 3)
     for r in range(1 if ctx.quick else 8):
         yield {"k": "cwd", "s": subseed("c18", ctx.seed, ctx.shard, "cwd", r)}
@@ -298,6 +312,15 @@ def build_case(case, thorough=False):
         return build_dt_equal(rng, tnames, thorough)
     if kind == "refuse":
         return build_refuse(rng, tnames, thorough, case)
+    if kind == "bigtable":
+        # more rows in one table than the reader's default batch (1000): the reader has to fetch several batches
+        t = tnames[0]
+        names = _unique(rng, _field_name, 2, set())
+        versions = [(t, [("string", names[0]), ("varint", names[1])])]
+        plan = [("w", 0, {names[0]: "row%d" % i, names[1]: i}) for i in range(case["rows"])]
+        return versions, plan
+    if kind == "redeclare":
+        return build_redeclare(rng, tnames, thorough)
     if kind == "coincident":
         return build_coincident(rng, tnames, thorough, case.get("style"))
     versions = []
@@ -434,6 +457,47 @@ def build_coincident(rng, tnames, thorough, forced_style=None):
         else:
             vi = base + rng.randrange(2)
         kw = {fname: _value(rng, ftype) for ftype, fname in versions[vi][1]}
+        plan.append(("w", vi, kw))
+        if rng.random() < 0.1:
+            plan.append(("f",))
+    return versions, plan
+
+
+REDECLARE_PAIRS = [("string", "varint"), ("varint", "string"), ("string", "float"), ("float", "string"), ("bytes", "string"), ("string", "bytes"),
+                   ("varint", "float"), ("float", "varint"), ("string", "datetime"), ("varint", "bytes")]
+NUMERIC_LOOKING = ["007", "1e5", " 12", "0x10", "3.0", "-0", "12", "9223372036854775808"]
+
+
+def build_redeclare(rng, tnames, thorough):
+    """A field name declared twice with different types - at table creation, or brought by an evolution step (the earlier
+    version does not have the name at all).  The record class, and therefore the value, follows the LAST declaration; so must
+    the column."""
+    versions = []
+    for t in tnames[:2]:
+        taken = set()
+        names = _unique(rng, _field_name, rng.choice([2, 3]), taken)
+        base = [(_ftype(rng), n) for n in names[1:]]
+        first, last = rng.choice(REDECLARE_PAIRS)
+        dup = names[0]
+        if rng.random() < 0.5:
+            versions.append((t, list(base)))  # evolution: the name arrives later, declared twice
+        fields = list(base)
+        fields.insert(rng.randint(0, len(fields)), (first, dup))
+        fields.append((last, dup))
+        versions.append((t, fields))
+    n = rng.choice([4, 6, 9]) if not thorough else rng.choice([6, 13, 21])
+    plan = []
+    order = list(range(len(versions)))
+    for i in range(n):
+        vi = order[min(len(order) - 1, i * len(order) // n)] if rng.random() < 0.7 else rng.choice(order)
+        kw = {}
+        for ftype, fname in versions[vi][1]:
+            v = _value(rng, ftype)
+            if ftype == "string" and rng.random() < 0.5:
+                v = rng.choice(NUMERIC_LOOKING)
+            if ftype == "float" and rng.random() < 0.4:
+                v = float(rng.randint(-5, 50))
+            kw[fname] = v  # a name declared twice keeps the value drawn for its LAST declaration
         plan.append(("w", vi, kw))
         if rng.random() < 0.1:
             plan.append(("f",))
@@ -697,6 +761,73 @@ def run_once(ctx, versions, descs, records, plan, bs, path, problems):
     return None if aborted else (k, accepted)
 
 
+def reader_usage(ctx, path, got, rb, bad):
+    """One reader object used in several ways while its batch size is below the table size: two iterators in lockstep, a nested
+    full iteration inside a loop, a partial iteration followed by a restart.  Every complete iteration must return exactly the
+    records a fresh reader returns."""
+    import itertools
+
+    from flow.record import RecordReader
+
+    want = [observe.obs(r) for r in got]
+
+    def obs_list(it):
+        return [observe.obs(r) for r in it]
+
+    for usage in ("lockstep", "nested", "restart", "read_table-twice"):
+        ctx.event("reader_usage_histories")
+        try:
+            rd = RecordReader("sqlite://%s?batch_size=%d" % (path, rb))
+            try:
+                if usage == "lockstep":
+                    a, b = [], []
+                    for x, y in itertools.zip_longest(iter(rd), iter(rd)):
+                        if x is not None:
+                            a.append(observe.obs(x))
+                        if y is not None:
+                            b.append(observe.obs(y))
+                    results = [a, b]
+                elif usage == "nested":
+                    outer, inner = [], None
+                    for i, x in enumerate(rd):
+                        outer.append(observe.obs(x))
+                        if i == 0:
+                            inner = obs_list(iter(rd))  # a lookup over the whole database from inside the loop
+                    results = [outer, inner if inner is not None else want]
+                elif usage == "restart":
+                    it = iter(rd)
+                    next(it, None)
+                    next(it, None)
+                    results = [obs_list(iter(rd))]
+                    results.append(obs_list(iter(rd)))
+                else:
+                    names = rd.table_names() if hasattr(rd, "table_names") and hasattr(rd, "read_table") else None
+                    if not names:
+                        continue
+                    gens = [rd.read_table(names[0]), rd.read_table(names[0])]
+                    a, b = [], []
+                    for x, y in itertools.zip_longest(*gens):
+                        if x is not None:
+                            a.append(observe.obs(x))
+                        if y is not None:
+                            b.append(observe.obs(y))
+                    first_table = [o for o in want if o[1] == (a[0][1] if a else None)]
+                    results = [a, b] if first_table else []
+                    want_here = first_table
+            finally:
+                rd.close()
+        except Exception as e:  # noqa: BLE001
+            bad("read-error", "using one SqliteReader for several iterations (%s) raised" % usage, reader_batch_size=rb,
+                exception="%s: %s" % (type(e).__name__, str(e)[:200]))
+            continue
+        ref = want_here if usage == "read_table-twice" else want
+        for res in results:
+            if res != ref:
+                bad("counts", "an iteration over a SqliteReader that is also used by another iteration (%s) does not return every record" % usage,
+                    reader_batch_size=rb, returned=len(res), expected=len(ref))
+                break
+
+
 def check_content(ctx, versions, records, plan, path, bs, problems, accepted=None):
     """Schema, row order, raw cells and read-back through SqliteReader, against the records written."""
     from flow.record import RecordReader
@@ -787,6 +918,29 @@ def check_content(ctx, versions, records, plan, path, bs, problems, accepted=Non
         bad("read-error", "RecordReader('sqlite://...') cannot read the database back", exception="%s: %s" % (type(e).__name__, str(e)[:300]))
         return d
     ctx.event("records_read", len(got))
+    # the reader fetches in batches of its own batch_size (default 1000): what it returns must not depend on that size
+    biggest = max([len(v) for v in per_type.values()] or [0])
+    for rb in sorted({1, 2, bs if bs < 1000 else 3, max(1, biggest - 1), max(1, biggest), biggest + 1}):
+        try:
+            rd = RecordReader("sqlite://%s?batch_size=%d" % (path, rb))
+            try:
+                again = list(rd)
+            finally:
+                rd.close()
+        except Exception as e:  # noqa: BLE001
+            bad("read-error", "RecordReader('sqlite://...?batch_size=N') cannot read the database back", reader_batch_size=rb,
+                exception="%s: %s" % (type(e).__name__, str(e)[:300]))
+            continue
+        ctx.event("reader_batch_size_reads")
+        if [observe.obs(r) for r in again] != [observe.obs(r) for r in got]:
+            bad("counts", "the records read back depend on the reader's batch size", reader_batch_size=rb, default_reader=len(got), this_reader=len(again),
+                largest_table=biggest)
+            break
+    if biggest >= 2:
+        problems_before = len(problems)
+        reader_usage(ctx, path, got, 1 if biggest <= 3 else 2, bad)
+        if len(problems) == problems_before:
+            ctx.event("reader_usage_histories_held")
     by_name = {}
     for r in got:
         by_name.setdefault(r._desc.name, []).append(r)
@@ -1017,7 +1171,7 @@ def execute(ctx, case):
     os.makedirs(d)
     dumps = {}
     problems = []
-    batches = BATCHES if ctx.quick else BATCHES_THOROUGH
+    batches = case.get("batches") or (BATCHES if ctx.quick else BATCHES_THOROUGH)
     for bs in batches:
         ctx.ev()
         path = os.path.join(d, "b%d.db" % bs)
@@ -1141,6 +1295,10 @@ def finish(ctx):
     ctx.require(ev.get("timestamps_equal_instant_other_offset", 0) > 0 and ev.get("timestamps_same_wall_clock_other_fold", 0) > 0
                 and ev.get("raw_timestamp_cells_checked", 0) > 0,
                 "no database held equal-instant timestamps with different offsets and a fold=0/fold=1 pair")
+    ctx.require(ev.get("reader_usage_histories", 0) > 0, "no reader-usage history (lockstep / nested / restart) ran")
+    ctx.require(ev.get("kind:redeclare", 0) > 0, "no descriptor with a re-declared field name was written")
+    ctx.require(ev.get("reader_batch_size_reads", 0) > 0, "the database was never read back with another reader batch size")
+    ctx.require(ctx.shard != 0 or ev.get("kind:bigtable", 0) > 0, "no table with more rows than the reader's default batch size")
     ctx.require(ev.get("kind:coincident", 0) > 0 and ev.get("coincident_version_switches", 0) > 0,
                 "no schema evolution between identifier-coincident versions of one type name")
     ctx.require(ev.get("unmappable_refused", 0) > 0, "no history in which an unmappable record was refused between accepted ones")
